@@ -52,6 +52,7 @@ HASHED_VARS = {'c': ['SCCACHE_C_CUSTOM_CACHE_BUSTER', 'SDKROOT'], 'rustc': ['CAR
 PP_ALLOW = ['SCCACHE_C_CUSTOM_CACHE_BUSTER', 'CPATH', 'C_INCLUDE_PATH', 'CPLUS_INCLUDE_PATH', 'OBJC_INCLUDE_PATH',
             'OBJCPLUS_INCLUDE_PATH']          # preprocessor_cache.rs CACHED_ENV_VARS (used for the abstract pp key only)
 PROFILE_FLAGS = ['-ftest-coverage', '--coverage', '-fprofile-generate']
+RUST_EMITS = ['link', 'dep-info,link', 'metadata', 'dep-info,metadata', 'dep-info,metadata,link']   # cargo build / cargo check shapes
 NUNITS = 3
 
 
@@ -98,12 +99,14 @@ def gen_plan(rng, tool, pp, cap, nreq, idle_timeout=0):
                     'cfgs': rng.shuffle(['fa', 'fb', 'fc'])[:rng.range(0, 3)],
                     'externs': rng.shuffle(['d1', 'd2'])[:rng.range(0, 2)],
                     'lpaths': rng.shuffle(['deps', 'lp2'])[:rng.range(0, 2)],
-                    'emit': rng.choice(['dep-info,link', 'link']),
+                    'emit': rng.choice(RUST_EMITS),
                     'out': fresh_out(), 'env': [], 'bad': bad()}
         return {'op': 'compile', 'unit': unit, 'opt': rng.choice(['-O0', '-O1', '-O2']),
                 'defs': rng.choice([[], ['-DK=1'], ['-DK=2', '-DJ']]),
-                'extra': rng.choice([[], ['-Wall'], ['-g'], ['-fPIC', '-Wall'], ['-ftest-coverage']]),
-                'md': rng.chance(1, 6), 'md_first': rng.chance(1, 2),
+                'extra': rng.choice([[], ['-Wall'], ['-g'], ['-fPIC', '-Wall'], ['-ftest-coverage'], ['--coverage'],
+                                     ['-g', '-gsplit-dwarf'], ['-g', '-gsplit-dwarf', '-ftest-coverage']]),
+                'md': rng.chance(1, 4), 'md_first': rng.chance(1, 2),
+                'dia': ('d%d.dia' % rng.below(3)) if (tool == 'clang' and rng.chance(1, 4)) else '',
                 'out': fresh_out(), 'env': [], 'bad': bad()}
 
     def vary(base):
@@ -155,7 +158,12 @@ def gen_plan(rng, tool, pp, cap, nreq, idle_timeout=0):
         if k == 'new':
             c = new_compile(rng.below(NUNITS))
         elif k == 'repeat':
-            c = vary(rng.choice(reqs))
+            j = rng.below(len(reqs))
+            c = vary(reqs[j])
+            if c['out'] == reqs[j]['out'] and not c['bad']:
+                # a repeat under the same name: ALWAYS delete a non-empty subset (possibly all) of what that compile
+                # produced first, so that "the hit restores every output" is actually observed
+                steps.append({'op': 'delete_some', 'req': j + 1, 'mask': rng.choice([0, 0, 1, 2, 3, 5, 6])})
         elif k == 'edit':
             # unrelated edit, then compile of that (other) unit
             u = rng.below(NUNITS)
@@ -377,9 +385,10 @@ class Runner:
             a += ['l%d.rs' % u, '--out-dir', c['out']]
             return a
         md = ['-MD', '-MF', c['out'] + '.d'] if c.get('md') else []
+        dia = ['--serialize-diagnostics', c['dia']] if c.get('dia') else []
         if c.get('md_first'):       # -MD before the -D options: a later preprocessor argument must not re-enable pp-cache mode
-            return md + [c['opt']] + self.defs(c) + c['extra'] + ['-c', 'u%d.c' % u, '-o', c['out']]
-        return [c['opt']] + self.defs(c) + c['extra'] + md + ['-c', 'u%d.c' % u, '-o', c['out']]
+            return md + [c['opt']] + self.defs(c) + c['extra'] + dia + ['-c', 'u%d.c' % u, '-o', c['out']]
+        return [c['opt']] + self.defs(c) + c['extra'] + dia + md + ['-c', 'u%d.c' % u, '-o', c['out']]
 
     @staticmethod
     def badcfg(c):
@@ -391,20 +400,54 @@ class Runner:
 
     def outputs(self, c):
         u = c['unit']
+        """(role, path, optional) of what `compilation.outputs()` yields for this request."""
         if self.tool == 'rustc':
-            o = [('libl%d.rlib' % u, '%s/libl%d.rlib' % (c['out'], u))]
-            if 'dep-info' in c['emit']:
-                o.append(('l%d.d' % u, '%s/l%d.d' % (c['out'], u)))
+            emit = c['emit'].split(',')
+            o = []
+            if 'link' in emit:
+                o.append(('libl%d.rlib' % u, '%s/libl%d.rlib' % (c['out'], u), 0))
+            if 'metadata' in emit:
+                o.append(('libl%d.rmeta' % u, '%s/libl%d.rmeta' % (c['out'], u), 0))
+            if 'dep-info' in emit:
+                o.append(('l%d.d' % u, '%s/l%d.d' % (c['out'], u), 0))
             return sorted(o)
-        o = [('obj', c['out'])]
-        if '-ftest-coverage' in c['extra']:
-            o.append(('gcno', os.path.splitext(c['out'])[0] + '.gcno'))
+        stem = os.path.splitext(c['out'])[0]
+        o = [('obj', c['out'], 0)]
+        if any(x in PROFILE_FLAGS for x in c['extra']):
+            o.append(('gcno', stem + '.gcno', 0))
+        if '-gsplit-dwarf' in c['extra']:
+            o.append(('dwo', stem + '.dwo', 1))
+        if c.get('dia'):
+            o.append(('dia', c['dia'], 0))
         return sorted(o)
 
     def keyed_out(self, c):
-        """An object instrumented for coverage / profiling embeds the location of its .gcno/.gcda files, derived from the
-        output path: for such requests (and only for them) the output name is part of what makes a request identical."""
-        return os.path.join(self.ws, c['out']) if any(x in PROFILE_FLAGS for x in c['extra']) else ''
+        """An object instrumented for coverage / profiling embeds the location of its .gcno/.gcda files, and one compiled
+        with -gsplit-dwarf the name of its .dwo file, both derived from the output path: for such requests (and only for
+        them) the output name is part of what makes a request identical."""
+        if any(x in PROFILE_FLAGS for x in c['extra']) or '-gsplit-dwarf' in c['extra']:
+            return os.path.join(self.ws, c['out'])
+        return ''
+
+    def listing(self):
+        """Every file of the client's directory with a signature that changes when the file is rewritten."""
+        out = {}
+        for r, ds, names in os.walk(self.ws):
+            for n in names:
+                p = os.path.join(r, n)
+                try:
+                    s = os.stat(p)
+                    out[os.path.relpath(p, self.ws)] = (s.st_ino, s.st_mtime_ns, s.st_size)
+                except OSError:
+                    pass
+        return out
+
+    def retarget_path(self, f, c0, c1):
+        """Where a file that the compile of request c0 produced belongs for the identical request c1."""
+        if self.tool == 'rustc':
+            return c1['out'] + f[len(c0['out']):] if f.startswith(c0['out'] + '/') else f
+        s0, s1 = os.path.splitext(c0['out'])[0], os.path.splitext(c1['out'])[0]
+        return s1 + f[len(s0):] if f.startswith(s0 + '.') else f
 
     def file_digest(self, rel):
         return h64(open(os.path.join(self.ws, rel), 'rb').read())
@@ -426,11 +469,13 @@ class Runner:
             args += [['h', b'l%d.rs' % u], ['out', c['out'].encode()]]
             inputs = [self.file_digest('l%d.rs' % u)]
             return ['req', tag, 'rust', 7, args, [[k.encode(), v.encode()] for k, v in env], [], self.ws.encode(),
-                    inputs, [[r.encode(), p.encode(), 0] for r, p in self.outputs(c)], [], oracle]
+                    inputs, [[r.encode(), p.encode(), o] for r, p, o in self.outputs(c)], [], oracle]
         defs = self.defs(c)
         # -ftest-coverage sets `profile_generate`: the absolute object path then enters the key (model: AProfile)
         args = [['h', c['opt'].encode()]] + [['u', d.encode()] for d in defs] + \
-               [['p' if x in PROFILE_FLAGS else 'h', x.encode()] for x in c['extra']]
+               [['p' if x in PROFILE_FLAGS else 'sd' if x == '-gsplit-dwarf' else 'h', x.encode()] for x in c['extra']]
+        if c.get('dia'):            # hashed (common) arguments; the file is an output of the request
+            args += [['h', b'--serialize-diagnostics'], ['h', c['dia'].encode()]]
         if c.get('md'):
             args += [['u', b'-MD'], ['u', b'-MF'], ['u', (c['out'] + '.d').encode()]]
         args += [['u', b'-c'], ['u', b'u%d.c' % u], ['out', c['out'].encode()]]
@@ -443,11 +488,11 @@ class Runner:
         ppkey = []
         if self.plan['pp'] and not c.get('md'):          # -MD is "too hard" for preprocessor-cache mode
             henv = sorted((k, v) for k, v in env if k in PP_ALLOW)
-            ppkey = [h64(b'ppkey', c['opt'], json.dumps(defs), json.dumps(c['extra']), json.dumps(henv), self.keyed_out(c),
+            ppkey = [h64(b'ppkey', c['opt'], json.dumps(defs), json.dumps(c['extra']), c.get('dia', ''), json.dumps(henv), self.keyed_out(c),
                          'u%d.c' % u, srcs[0]).to_bytes(8, 'big')]
         comp = h64(open(self.cc, 'rb').read())
         return ['req', tag, 'c', comp, args, [[k.encode(), v.encode()] for k, v in env], [], self.ws.encode(),
-                inputs, [[r.encode(), p.encode(), 0] for r, p in self.outputs(c)], ppkey, oracle]
+                inputs, [[r.encode(), p.encode(), o] for r, p, o in self.outputs(c)], ppkey, oracle]
 
     def identity(self, c):
         """The property's own notion of "the identical request" (same compiler, arguments, hashed environment,
@@ -460,7 +505,7 @@ class Runner:
                     tuple(sorted((x, self.file_digest('deps/lib%s.rlib' % x)) for x in c['externs'])),
                     tuple(henv), self.ws, self.file_digest('l%d.rs' % u))
         henv = sorted((k, v) for k, v in c['env'] if k in C_ALLOW)
-        return ('c', u, c['opt'], tuple(self.defs(c)), tuple(c['extra']), bool(c.get('md')), bool(c.get('md') and c.get('md_first')), tuple(henv), self.keyed_out(c),
+        return ('c', u, c['opt'], tuple(self.defs(c)), tuple(c['extra']), bool(c.get('md')), bool(c.get('md') and c.get('md_first')), c.get('dia', ''), tuple(henv), self.keyed_out(c),
                 tuple(self.file_digest(f) for f in ('u%d.c' % u, 'u%d.h' % u, 'common.h')))
 
     def classify_log(self, lines):
@@ -486,7 +531,8 @@ class Runner:
         events = []
         self.sc(['--start-server'])
         saved = {}                      # tag -> {role: sha}
-        stored = {}                     # identity -> (tag, entry file)
+        stored = {}                     # identity -> (tag, entry file, request, {file the compiler produced: sha})
+        produced = {}                   # tag -> files written while the request was served
         viol = []
         tag = 0
         try:
@@ -520,6 +566,15 @@ class Runner:
                         events.append(e)
                         obs.append({'op': 'delete', 'entries': self.entries()})
                     continue
+                if op == 'delete_some':
+                    # a non-empty subset (mask 0 = all) of the files the compile of / the hit for request `req` left
+                    files = sorted(f for f in produced.get(st['req'], []) if os.path.exists(os.path.join(self.ws, f)))
+                    pick = [f for i, f in enumerate(files) if (st['mask'] >> i) & 1] or files
+                    for f in pick:
+                        os.remove(os.path.join(self.ws, f))
+                        events.append(['delete', f.encode()])
+                        obs.append({'op': 'delete', 'entries': self.entries()})
+                    continue
                 if op == 'restart':
                     rc, _, _ = self.sc(['--stop-server'])
                     if rc != 0:
@@ -550,14 +605,17 @@ class Runner:
                 before_entries = self.entries()
                 s0 = self.stats()
                 self.take_log()
+                ls0 = self.listing()
                 rc, out, err = self.sc([self.cc] + self.argv(st), st['env'])
+                ls1 = self.listing()
+                produced[tag] = sorted(f for f in ls1 if ls0.get(f) != ls1[f])
                 lines = self.take_log()
                 s1 = self.stats()
                 d = {k: s1[k] - s0[k] for k in s0}
                 after_entries = self.entries()
                 compiled, pre = self.classify_log(lines)
                 outs = self.outputs(st)
-                shas = {p: sha(os.path.join(self.ws, p)) for _, p in outs}
+                shas = {p: sha(os.path.join(self.ws, p)) for _, p, _ in outs}
                 if d['cache_hits'] == 1 and d['cache_misses'] == 0:
                     kind = 'hit'
                 elif d['cache_misses'] == 1 and d['cache_hits'] == 0:
@@ -575,25 +633,31 @@ class Runner:
                 if d['cache_write_errors']:
                     size = self.plan['cap'] + 1      # the store was refused: larger than the whole cache
                 o = {'op': 'compile', 'tag': tag, 'rc': rc, 'kind': kind, 'compiled': compiled, 'pre': pre,
-                     'stored': d['cache_writes'], 'write_errors': d['cache_write_errors'], 'outputs': outs, 'shas': shas,
+                     'stored': d['cache_writes'], 'write_errors': d['cache_write_errors'],
+                     'outputs': [(r, p) for r, p, _ in outs], 'shas': shas,
                      'entries': after_entries, 'new': new, 'stderr': err.decode('utf-8', 'replace')[-400:],
                      'requests': d['requests_executed']}
                 if compiled:
-                    saved[tag] = {role: shas[p] for role, p in outs}
-                # ---- the property, evaluated on the real observation (no model involved)
+                    saved[tag] = {role: shas[p] for role, p, _ in outs}
+                # ---- the property, evaluated on the real observation (no model involved, and no knowledge of which
+                #      files sccache considers outputs: EVERY file the first compile produced must be there again)
                 if ident in stored:
-                    t0, entry_file = stored[ident]
+                    t0, entry_file, st0, files0 = stored[ident]
                     if entry_file in before_entries:
                         what = []
                         if kind != 'hit':
                             what.append('answered %s instead of a cache hit' % kind)
                         if compiled:
                             what.append('the compiler ran (%d compile step(s))' % compiled)
-                        for role, p in outs:
-                            if shas[p] is None:
-                                what.append('output %s was not restored' % p)
-                            elif shas[p] != saved[t0].get(role):
-                                what.append('output %s differs from the bytes recorded by the first compile' % p)
+                        for f0, sha0 in sorted(files0.items()):
+                            f1 = self.retarget_path(f0, st0, st)
+                            have = sha(os.path.join(self.ws, f1))
+                            # a C dependency file names its target: its bytes legitimately follow the output name
+                            name_dependent = self.tool != 'rustc' and f0.endswith('.d') and st0['out'] != st['out']
+                            if have is None:
+                                what.append('%s (%s of the first compile) was not restored' % (f1, f0))
+                            elif have != sha0 and not name_dependent:
+                                what.append('%s differs from the bytes the first compile produced (%s)' % (f1, f0))
                         if rc != 0:
                             what.append('client exit code %d' % rc)
                         if what:
@@ -603,12 +667,17 @@ class Runner:
                 if self.plan.get('idle_timeout') and not self.server_alive():
                     raise Inconclusive('the server exited while request %d was being observed' % tag)
                 if d['cache_writes'] == 1 and len(new) == 1:
-                    stored[ident] = (tag, new[0])
+                    stored[ident] = (tag, new[0], st, {f: sha(os.path.join(self.ws, f)) for f in produced[tag]})
                 o['saved_ref'] = None
                 obs.append(o)
                 bad = st.get('bad', '')
                 # what the compile step leaves behind: everything, or (rustc failing in type check) only the dep-info
-                written = [r for r, _ in outs if bad != 'cc' or (self.tool == 'rustc' and r.endswith('.d'))]
+                if compiled:
+                    # observed: which of its outputs the compile step wrote (a .dwo or not; a failing clang still writes
+                    # the serialized diagnostics, a failing rustc the dep-info)
+                    written = [r for r, p, _ in outs if p in produced[tag]]
+                else:
+                    written = [r for r, _, _ in outs if bad != 'cc' or (self.tool == 'rustc' and r.endswith('.d'))]
                 events.append(self.abstract(st, tag, [0 if bad == 'pre' else 1, 0 if bad == 'cc' else 1, 1, size,
                                                       [r.encode() for r in written]]))
         finally:
@@ -827,8 +896,11 @@ def extra(rep, known):
     info['violations'] = nviol
     info['wall_s'] = round(time.time() - t0, 1)
     rep.legs['hist'] = info
-    rep.rule.append('hist: generated histories of 7-12 compile requests (new unit / repeat with another -o, another unrelated or '
-                    'hashed variable, permuted --cfg/--extern/-L, another flag) interleaved with edits, output deletions, server '
+    rep.rule.append('hist: generated histories of 8-14 compile requests (new unit / repeat with another -o, another unrelated or '
+                    'hashed variable, permuted --cfg/--extern/-L, another flag) over the multi-output shapes (rustc --emit in '
+                    '{link; dep-info,link; metadata; dep-info,metadata; dep-info,metadata,link}, C: -MD -MF, -gsplit-dwarf, '
+                    '--coverage/-ftest-coverage, clang --serialize-diagnostics), every same-name repeat preceded by the deletion of '
+                    'a non-empty subset of what the first compile produced, interleaved with edits, deletions, server '
                     'restarts and idle periods, for gcc, clang, rustc x preprocessor-cache mode on/off x huge/small capacity; '
                     'non-trivial = the history contains at least one cache hit; distinct by plan text')
     pipeline.log('leg hist: %d histories, %d requests, %d disagreements, %d violations, %.1fs'
